@@ -44,9 +44,36 @@ TrFatal == /\ Is("Fatal")
            /\ viol' = viol \cup {V("NotAtomic", Ev.be \o ":" \o Ev.what)}
            /\ l' = l + 1 /\ UNCHANGED <<poss, dead>>
 
+\* Race [be, kind, n, trues, distinct, final]: n callers released together issue the same kind of
+\* operation on one fresh key (SetNX with n different values / CAS from the same old value to n
+\* different new values / IncrBy 1 / Append of n different members); the driver reports how many
+\* were answered TRUE, whether all integer answers were distinct, and what a read afterwards saw
+\* (counter value / list length).  What any sequential order of the n operations yields is
+\* computed from the reference; for these symmetric operations every order gives the same counts.
+RECURSIVE SeqTrues(_, _, _)
+SeqTrues(st, ops, i) == IF i > Len(ops) THEN 0
+                        ELSE LET a == Apply(st, 0, ops[i])
+                             IN (IF a.res.t = "bool" /\ a.res.v THEN 1 ELSE 0) + SeqTrues(a.st, ops, i + 1)
+RECURSIVE SeqFinal(_, _, _)
+SeqFinal(st, ops, i) == IF i > Len(ops) THEN st ELSE SeqFinal(Apply(st, 0, ops[i]).st, ops, i + 1)
+RaceOps(kind, n) == [i \in 1..n |->
+   CASE kind = "SetNX"  -> [op |-> "SetNX", k |-> "s1", v |-> "a", ttl |-> "0"]
+     [] kind = "CAS"    -> [op |-> "CAS", k |-> "s1", old |-> "nil", v |-> "a", ttl |-> "0"]
+     [] kind = "IncrBy" -> [op |-> "IncrBy", k |-> "c1", n |-> 1]
+     [] kind = "Append" -> [op |-> "Append", k |-> "l1", v |-> "a"]]
+Fresh0 == [k \in AllKeys |-> NoneOf(k)]
+TrRace == /\ Is("Race")
+          /\ LET ops == RaceOps(Ev.kind, Ev.n)
+                 fin == SeqFinal(Fresh0, ops, 1)
+                 good == CASE Ev.kind \in {"SetNX", "CAS"} -> Ev.trues = SeqTrues(Fresh0, ops, 1)
+                           [] Ev.kind = "IncrBy" -> Ev.distinct /\ Ev.final = fin["c1"].v
+                           [] Ev.kind = "Append" -> Ev.final = Len(fin["l1"].v)
+             IN viol' = IF good THEN viol ELSE viol \cup {V("NotAtomic", Ev.be \o ":race:" \o Ev.kind)}
+          /\ l' = l + 1 /\ UNCHANGED <<poss, dead>>
+
 TrEnd == /\ Is("End") /\ EmitVerdict
          /\ l' = l + 1 /\ viol' = {} /\ poss' = Fresh /\ dead' = FALSE
 
-Next == TrCall \/ TrRet \/ TrFatal \/ TrEnd
+Next == TrCall \/ TrRet \/ TrFatal \/ TrRace \/ TrEnd
 Spec == Init /\ [][Next]_vars
 =============================================================================
